@@ -44,19 +44,39 @@ def run(ctx):
     r = ctx.tlc("NtpExchangeMC", "NtpExchange_exh.cfg" if q else "NtpExchange_deep.cfg",
                 timeout=300 if q else 2400, workers=8, heap=None if q else "20g")
     ctx.log("TLC exhaustive: %d distinct states" % r["distinct"])
+    # the SCION end host: every class of forwarder stamp (end-to-end option 253) at every delivery
+    rf = ctx.tlc("NtpExchangeMC", "NtpExchange_fwd.cfg" if q else "NtpExchange_fwddeep.cfg",
+                 timeout=300 if q else 1200, workers=8, heap=None if q else "12g", tag="fwd")
+    ctx.log("TLC exhaustive, SCION end host with forwarder stamps: %d distinct states" % rf["distinct"])
     n = 120 if q else 1500
-    g = ctx.tlc("NtpExchangeGen", "NtpExchange_gen.cfg", workers=1, timeout=600, simulate="num=%d" % n, depth=90, tag="gen")
-    scheds = ctx.emitted(g["out"])
-    # a walk is emitted again every time it continues after completion: keep maximal ones
-    keep = []
-    for i, s in enumerate(scheds):
-        nxt = scheds[i + 1] if i + 1 < len(scheds) else None
-        if nxt is not None and len(nxt) > len(s) and nxt[:len(s)] == s:
-            continue
-        keep.append(s)
-    scheds = keep
-    if len(scheds) < n // 4:
-        raise vlib.Inconclusive("generator produced only %d schedules" % len(scheds))
+
+    def gen(cfg, num, tag):
+        g = ctx.tlc("NtpExchangeGen", cfg, workers=1, timeout=600, simulate="num=%d" % num, depth=90, tag=tag)
+        ss = ctx.emitted(g["out"])
+        # a walk is emitted again every time it continues after completion: keep maximal ones
+        keep = []
+        for i, s in enumerate(ss):
+            nxt = ss[i + 1] if i + 1 < len(ss) else None
+            if nxt is not None and len(nxt) > len(s) and nxt[:len(s)] == s:
+                continue
+            keep.append(s)
+        return keep
+    # one generator run per network: IP (the end host attaches nothing) and SCION (the
+    # forwarder's stamp class is drawn at every delivery); the schedules alternate
+    s_ip = gen("NtpExchange_gen.cfg", n // 2, "gen")
+    s_sc = gen("NtpExchange_genfwd.cfg", n // 2, "genfwd")
+    scheds = [s for pair in zip(s_ip, s_sc) for s in pair] + s_ip[len(s_sc):] + s_sc[len(s_ip):]
+    if len(scheds) < n // 4 or len(s_ip) < n // 8 or len(s_sc) < n // 8:
+        raise vlib.Inconclusive("generator produced only %d + %d schedules" % (len(s_ip), len(s_sc)))
+    # vacuity of the forwarder dimension, judged on what the specification generated:
+    # deliveries the schedules predict to be accepted, per stamp class
+    classes = ("none", "inside", "before", "after", "bad")
+    fwd_ok = {c: sum(1 for s in s_sc for m in s if m.get("a") == "crecv" and m.get("res") == "ok" and m.get("fw") == c)
+              for c in classes}
+    fwd_all = {c: sum(1 for s in s_sc for m in s if m.get("a") == "crecv" and m.get("fw") == c) for c in classes}
+    need = 8 if q else 80
+    if any(fwd_ok[c] < need for c in classes):
+        raise vlib.Inconclusive("schedules vacuous in the forwarder-stamp dimension: accepted deliveries per class %s" % fwd_ok)
     cp = ctx.path("scheds.ndjson")
     vlib.write_ndjson(cp, scheds)
     try:
@@ -91,7 +111,13 @@ def run(ctx):
     if not ok:
         bad = recs[l - 1] if l else None
         beh = [x for x in recs if bad and x["beh"] == bad["beh"]]
-        ctx.violation("C03 %s %s" % (inv, "interleaved" if bad and bad["il"] else "basic"),
+        # input class: what the end host attached to the delivery whose receive time the result
+        # uses (this delivery for a basic result, the previously accepted one for an interleaved)
+        fwc = (bad.get("pfw") if bad.get("il") else bad.get("fw")) if bad else None
+        sig = "C03 %s %s" % (inv, "interleaved" if bad and bad["il"] else "basic")
+        if fwc and fwc != "none":
+            sig += " forwarder-stamp=%s" % fwc
+        ctx.violation(sig,
                       "accepted measurement violates %s: %s" % (inv, bad),
                       {"record": bad, "behaviour_records": beh, "schedule": scheds[bad["beh"]] if bad else None})
         nval = 0
@@ -100,20 +126,37 @@ def run(ctx):
         if not ok:
             what = {"SOutcome": "client reaction differs from NtpExchange.tla",
                     "SPrevFlag": "the client's interleaved state (hook) and the wire classify the accepted response differently",
+                    "SStampUse": "the client uses / ignores the end-host forwarder's timestamp option differently from NtpExchange!RxTime",
                     "SLog": "the client's log records tell another reaction / offset / delay / mode than the observation"}.get(inv, inv)
             ctx.drift.append("%s: %s" % (what, recs[l - 1] if l else "?"))
     reuse_scenario(ctx, recs)
+    drv = [x for x in recs if x["ev"] in ("accept", "recv") and x.get("fw")]
+    fwd_del = {c: sum(1 for x in drv if x["fw"] == c) for c in classes[1:]}
+    fwd_acc = {c: sum(1 for x in acc if x.get("fw") == c) for c in classes[1:]}
+    ctx.notes.append("end-host forwarder dimension (SCION end-to-end option 253; NtpExchange!ClientRecv(m, fw)): TLC exhaustive over "
+                     "all five stamp classes at every delivery: %d distinct states; %d of %d generated schedules are SCION schedules "
+                     "with a drawn class per delivery: deliveries per class %s, of which predicted accepted %s; replayed on the real "
+                     "SCIONClient: deliveries carrying the option %s, judged accepted measurements %s (%d of them took the stamp as t3)" %
+                     (rf["distinct"], len(s_sc), len(scheds), fwd_all, fwd_ok, fwd_del, fwd_acc, sum(1 for x in acc if x.get("t3s"))))
     ctx.cov.update(traces_validated_against_impl=nval, evaluations=len(recs),
                    distinct_nontrivial=len({(x["il"], x["t0ex"], x["t1h"], x["t2r"], x["ex"]) for x in acc}),
                    accepted=len(acc), accepted_interleaved=sum(1 for x in acc if x["il"]),
                    accepted_by_source={k: sum(1 for x in acc if x["src"] == k) for k in ("filter", "wire")},
-                   accepted_not_judged=unj, records_with_log_crosscheck=sum(1 for x in recs if x.get("lg")),
+                   accepted_not_judged=unj, forwarder_stamp_generated=fwd_all, forwarder_stamp_generated_accepted=fwd_ok,
+                   forwarder_stamp_delivered=fwd_del, forwarder_stamp_judged=fwd_acc,
+                   exhaustive_forwarder_states=rf["distinct"], records_with_log_crosscheck=sum(1 for x in recs if x.get("lg")),
                    outcomes={k: sum(1 for x in recs if x.get("got") == k) for k in ("ok", "skip", "error", "timeout", "ignored")},
                    rule="TLC -simulate walks of NtpExchangeGen (6 attempts, loss/duplication/reordering of requests and "
-                        "responses, lost server tx timestamps, server clock steps of +-1 s, idle > 3 s) executed by the "
-                        "harness network against the real IPClient and the real server handler on loopback",
+                        "responses, lost server tx timestamps, server clock steps of +-1 s, idle > 3 s; SCION schedules: "
+                        "the end-host forwarder's timestamp option absent / inside the exchange / before the request's "
+                        "transmission / after the socket receive / malformed at every delivery) executed by the "
+                        "harness network against the real IPClient / SCIONClient and the real server handler on loopback",
                    samples=acc[:3] + [x for x in acc if x["il"]][:2])
     ctx.assumptions += ["IP and SCION clients alternate per schedule (SCION: same-AS empty path, no SPAO - see C13)",
+                        "the end-host forwarder's genuine stamp is taken by the harness just before it hands the datagram to the "
+                        "client's socket (the delivery window of t3 begins there); stamps from before the request lie >= 20 ms before "
+                        "the last harness event preceding the request, stamps after the receive >= 5 s ahead; SCION schedules run "
+                        "with 8-12 ms of real one-way delay",
                         "a datagram reaches only the socket it was addressed to (no ephemeral-port reuse)",
                         "loopback kernel software timestamps; causal identification windows between neighbouring harness network events",
                         "what the client did with a datagram is decided without its log: return of the measurement call, the "
